@@ -496,6 +496,34 @@ func (p *c16) checkSequences(r *core.CaseResult) {
 			}()
 		}
 	}
+	// one Command, a rejected Sanitize call (surplus / missing / unsupported argument), then an accepted one
+	for gi, g := range good {
+		func() {
+			defer func() {
+				if rec := recover(); rec != nil {
+					r.Fail("C16|sequence|command-reuse-panics", fmt.Sprintf("NewQuery(%q): %v", g.tmpl, rec), nil)
+				}
+			}()
+			c, err := sanitize.NewQuery(g.tmpl)
+			if err != nil {
+				return
+			}
+			for _, badArgs := range [][]any{append(append([]any{}, g.args...), "surplus"), nil, {struct{}{}, struct{}{}, struct{}{}}} {
+				if len(badArgs) == len(g.args) {
+					continue
+				}
+				if _, berr := c.Sanitize(badArgs...); berr == nil {
+					continue
+				}
+				s1, e1 := c.Sanitize(g.args...)
+				r.Execs += 2
+				if e1 != nil || s1 != base[gi] {
+					r.Fail("C16|sequence|command-reuse-after-rejection", fmt.Sprintf("c := NewQuery(%q); c.Sanitize(%v) is rejected; then c.Sanitize(%v) = %q (%v); SanitizeSQL gives %q", g.tmpl, badArgs, g.args, s1, e1, base[gi]), map[string]any{"template": g.tmpl})
+					return
+				}
+			}
+		}()
+	}
 	for round := 0; round < 3; round++ {
 		for bi, b := range bad {
 			for gi, g := range good {
